@@ -800,6 +800,39 @@ def matrix2_cases(g):
             b["conds"].append(g.msg_cond("RECEIVE_MESSAGE", mode if ok else mode ^ 1, msg, b, a)); b["tags"].append(("RECEIVE_MESSAGE", "mode"))
             n += 1
             emit([a, b], [("SEND_MESSAGE", "mode:%d:%d" % (mode, ok))], n & 1, 0x10000 | (0x800000 if n & 2 else 0))
+    # lock windows: every ORDER of two or three lock conditions of one family in one spend (the running max/min and the
+    # impossible-window test must not depend on the order), values around each other and at equality
+    import itertools
+    fams = [("ASSERT_HEIGHT_RELATIVE", "ASSERT_BEFORE_HEIGHT_RELATIVE"), ("ASSERT_SECONDS_RELATIVE", "ASSERT_BEFORE_SECONDS_RELATIVE"),
+            ("ASSERT_HEIGHT_ABSOLUTE", "ASSERT_BEFORE_HEIGHT_ABSOLUTE"), ("ASSERT_SECONDS_ABSOLUTE", "ASSERT_BEFORE_SECONDS_ABSOLUTE")]
+    for (fa, fb) in fams:
+        multis = [[(fa, 100), (fb, 200), (fb, 50)], [(fa, 100), (fa, 300), (fb, 200)], [(fa, 100), (fb, 200), (fb, 150)],
+                  [(fa, 100), (fb, 100)], [(fa, 100), (fb, 101)], [(fa, 0), (fb, 0)], [(fa, 0), (fb, 1)],
+                  [(fa, 100), (fa, 50), (fb, 75)], [(fb, 10), (fb, 20), (fa, 15)]]
+        for ms in multis:
+            for perm in sorted(set(itertools.permutations(ms))):
+                spends, t = fresh(False)
+                for (nm, v) in perm:
+                    g.add_raw(t, nm, [canon(v)])
+                n += 1
+                emit(spends, [(fa, "order:" + ",".join("%s%d" % ("a" if nm == fa else "b", v) for nm, v in perm))], n & 1,
+                     0x10000 | (0x800000 if n & 2 else 0))
+    for fam in ("ASSERT_MY_BIRTH_HEIGHT", "ASSERT_MY_BIRTH_SECONDS"):
+        for vals in ([5, 5], [5, 6], [6, 5], [5, 5, 6], [5, 6, 5], [6, 5, 5], [0, 0], [0, 1]):
+            spends, t = fresh(False)
+            for v in vals:
+                g.add_raw(t, fam, [canon(v)])
+            n += 1
+            emit(spends, [(fam, "order:" + ",".join(map(str, vals)))], n & 1)
+    # the same across TWO spends for the absolute (bundle-wide) locks
+    for (fa, fb) in fams[2:]:
+        for (x, y, z) in ((100, 200, 50), (100, 200, 150), (100, 100, 300)):
+            for order in (0, 1):
+                a1 = g.new_spend(parent=r.bytes(32), amount=1000); a1["budget"] = []
+                a2 = g.new_spend(parent=r.bytes(32), amount=2000); a2["budget"] = []
+                g.add_raw(a1, fa, [canon(x)]); g.add_raw(a1, fb, [canon(y)]); g.add_raw(a2, fb, [canon(z)])
+                n += 1
+                emit([a1, a2] if order == 0 else [a2, a1], [(fa, "order2:%d,%d,%d:%d" % (x, y, z, order))], n & 1)
     # many identical messages for one key: the balance must be exact whatever the order (127 / 128 / 129 / 300 in a row)
     for cnt in (127, 128, 129, 300):
         for order in (0, 1):
